@@ -84,6 +84,7 @@ pub const T7_TEMPLATES: &[(&str, &str)] = &[
     ("\"", "\""),
     ("\"", "\"n"),
     ("\"", "\"x"),
+    ("\"", "\"X"),
     ("\"&v", "\""),
     ("\"", "&v\""),
     ("\"%m()", "\""),
